@@ -252,6 +252,40 @@ Definition link_by_ref (h : handler) (is_image : bool) (text : str) (fl : flags)
     end
   end.
 
+(* parse_link after the text and the position behind it are known: inline destination, reference label, or shortcut *)
+Definition link_after (h : handler) (src : str) (fl : flags) (is_image : bool) (label0 : option str) (text : str) (end_pos : nat) : res hres :=
+  let by_ref := link_by_ref h is_image text fl in
+  match nth_error src end_pos with
+  | None => by_ref label0 end_pos
+  | Some c =>
+    if (c =? 40)%Z then
+      do d <- parse_link_dest src (S end_pos);
+      match d with
+      | Some (url, title, pos2) =>
+        if Nat.eqb pos2 0 then by_ref label0 end_pos
+        else do t <- link_token h is_image text url title (match title with Some _ => true | None => false end) None fl;
+             Ok (Some pos2, [t], fl)
+      | None => by_ref label0 end_pos
+      end
+    else if (c =? 91)%Z then
+      match parse_link_label src (S end_pos) with
+      | Some (label2, pos2) =>
+        if Nat.eqb pos2 0 then by_ref label0 end_pos
+        else by_ref (match label2 with [] => label0 | _ => Some label2 end) pos2
+      | None => by_ref label0 end_pos
+      end
+    else by_ref label0 end_pos
+  end.
+
+Definition link_body (h : handler) (m : mresult) (src : str) (fl : flags) (is_image : bool) (label0 : option str) (text : str) (end_pos : nat) : res hres :=
+  if Nat.leb (length src) end_pos && (match label0 with None => true | _ => false end) then Ok (None, [], fl)
+  else
+    do pr <- precedence_scan h m src fl end_pos [ICodespan; IPrecAutoLink; IPrecInlineHtml];
+    match pr with
+    | Some (p, toks) => Ok (Some p, toks, fl)
+    | None => link_after h src fl is_image label0 text end_pos
+    end.
+
 (* one level of handlers, given the handlers of the level below (for nested rendering and precedence) *)
 Definition set_link (fl : flags) (b : bool) : flags :=
   {| in_image := in_image fl; in_link := b; in_emphasis := in_emphasis fl; in_strong := in_strong fl |}.
@@ -322,41 +356,14 @@ Definition handle_with (h : handler) (rk : irule) (m : mresult) (src : str) (fl 
     let is_image := prefixb [33%Z] marker in
     if (is_image && in_image fl) || (negb is_image && in_link fl) then Ok (Some pos, [TText marker], fl)
     else
-      let lab := parse_link_label src pos in
-      do tx <- match lab with Some (l, e) => Ok (Some (l, e)) | None => parse_link_text src pos end;
-      match tx with
-      | None => Ok (None, [], fl)
-      | Some (text, end_pos) =>
-        if Nat.leb (length src) end_pos && (match lab with None => true | _ => false end) then Ok (None, [], fl)
-        else
-          do pr <- precedence_scan h m src fl end_pos [ICodespan; IPrecAutoLink; IPrecInlineHtml];
-          match pr with
-          | Some (p, toks) => Ok (Some p, toks, fl)
-          | None =>
-            let label0 := match lab with Some (l, _) => Some l | None => None end in
-            let by_ref := link_by_ref h is_image text fl in
-            match nth_error src end_pos with
-            | None => by_ref label0 end_pos
-            | Some c =>
-              if (c =? 40)%Z then
-                do d <- parse_link_dest src (S end_pos);
-                match d with
-                | Some (url, title, pos2) =>
-                  if Nat.eqb pos2 0 then by_ref label0 end_pos
-                  else do t <- link_token h is_image text url title (match title with Some _ => true | None => false end) None fl;
-                       Ok (Some pos2, [t], fl)
-                | None => by_ref label0 end_pos
-                end
-              else if (c =? 91)%Z then
-                match parse_link_label src (S end_pos) with
-                | Some (label2, pos2) =>
-                  if Nat.eqb pos2 0 then by_ref label0 end_pos
-                  else by_ref (match label2 with [] => label0 | _ => Some label2 end) pos2
-                | None => by_ref label0 end_pos
-                end
-              else by_ref label0 end_pos
-            end
-          end
+      match parse_link_label src pos with
+      | Some (l, e) => link_body h m src fl is_image (Some l) l e
+      | None =>
+        do tx <- parse_link_text src pos;
+        match tx with
+        | None => Ok (None, [], fl)
+        | Some (text, end_pos) => link_body h m src fl is_image None text end_pos
+        end
       end
   end.
 
